@@ -33,6 +33,7 @@ type Profile struct {
 	DevErrors    bool // device error classes
 	Injections   bool // failed / lost writes
 	Rollbacks    bool
+	RollbackPct  int // > 0: rollbacks only in this percentage of the histories (0 = in all, if Rollbacks)
 	Serializable bool
 	Persistent   bool
 	Deletes      bool
@@ -396,6 +397,10 @@ func Generate(r *rng.R, p Profile) fw.Case {
 		g.tags["burst"] = true
 	}
 	policy := r.Intn(4) // 0,3: mixed random/FIFO/LIFO; 1: youngest transaction first; 2: oldest first
+	rollbacks := p.Rollbacks
+	if p.RollbackPct > 0 {
+		rollbacks = rollbacks && r.Intn(100) < p.RollbackPct
+	}
 	if policy == 1 {
 		g.tags["youngest-first"] = true
 	} else if policy == 2 {
@@ -405,7 +410,7 @@ func Generate(r *rng.R, p Profile) fw.Case {
 		steps++
 		switch {
 		case g.nTx < sets && (len(g.queue) == 0 || r.Chance(1, 6)):
-			if p.Rollbacks && (!g.clean || p.RollbackBias) && g.nTx > 0 && (r.Chance(1, 4) || (p.RollbackBias && r.Chance(1, 3))) {
+			if rollbacks && (!g.clean || p.RollbackBias) && g.nTx > 0 && (r.Chance(1, 4) || (p.RollbackBias && r.Chance(1, 3))) {
 				k := r.Range(1, g.nTx+1)
 				if p.RollbackBias && r.Chance(1, 2) {
 					k = g.nTx // the latest transaction: the legal case most of the time
@@ -534,7 +539,7 @@ func Generate(r *rng.R, p Profile) fw.Case {
 	if p.MultiBias {
 		nt = nt && (g.tags["multi-target"] || g.tags["verdict"])
 	}
-	if p.RollbackBias {
+	if p.RollbackBias && p.RollbackPct == 0 {
 		nt = nt && g.tags["rollback"]
 	}
 	return fw.Case{Script: g.script, Tags: tags, Nontrivial: nt}
